@@ -211,6 +211,22 @@ class _Path:
         self.node = node          # statement that ended the path
 
 
+def _truth_valued(e: ast.AST) -> bool:
+    """an expression whose value is True or False whatever its operands are (so `A != B` on two of them is exclusive-or)"""
+    if isinstance(e, ast.Constant):
+        return isinstance(e.value, bool)
+    if isinstance(e, ast.UnaryOp) and isinstance(e.op, ast.Not):
+        return True
+    if isinstance(e, ast.Compare):
+        return len(e.ops) == 1
+    if isinstance(e, ast.Call) and isinstance(e.func, ast.Name) and e.func.id in ('bool', 'isinstance', 'callable', 'hasattr') \
+            and not e.keywords:
+        return True
+    if isinstance(e, ast.BoolOp):
+        return all(_truth_valued(v) for v in e.values)
+    return False
+
+
 def _decide(test: ast.AST, origin: ast.AST) -> List[Tuple[list, bool]]:
     """short-circuit expansion of a condition into (atoms in evaluation order, truth value) alternatives"""
     if isinstance(test, ast.UnaryOp) and isinstance(test.op, ast.Not):
@@ -242,6 +258,19 @@ def _decide(test: ast.AST, origin: ast.AST) -> List[Tuple[list, bool]]:
     if isinstance(test, ast.Call) and isinstance(test.func, ast.Name) and test.func.id == 'bool' and len(test.args) == 1 \
             and not test.keywords:
         return _decide(test.args[0], origin)
+    if isinstance(test, ast.Compare) and len(test.ops) == 1 and isinstance(test.ops[0], (ast.Eq, ast.NotEq, ast.Is, ast.IsNot)) \
+            and _truth_valued(test.left) and _truth_valued(test.comparators[0]) \
+            and not (isinstance(test.left, ast.Constant) and isinstance(test.comparators[0], ast.Constant)):
+        # `(val is None) != bool(v)` / `found == negated`-style comparison of two truth values: both sides are evaluated, the
+        # result is their (in)equality
+        differ = isinstance(test.ops[0], (ast.NotEq, ast.IsNot))
+        out = []
+        for a, r in _decide(test.left, origin):
+            for a2, r2 in _decide(test.comparators[0], origin):
+                out.append((a + a2, (r != r2) == differ))
+        return out
+    if isinstance(test, ast.BinOp) and isinstance(test.op, ast.BitXor) and _truth_valued(test.left) and _truth_valued(test.right):
+        return [(a + a2, r != r2) for a, r in _decide(test.left, origin) for a2, r2 in _decide(test.right, origin)]
     return [([(test, True, origin)], True), ([(test, False, origin)], False)]
 
 
@@ -422,6 +451,11 @@ class _SearchVocab:
                 nl, nr = self.attr_name(l), self.attr_name(r)
                 if nl is not None and self.val_is(r):
                     return ('P', neg, o, nl)
+                if nl is not None and o in ('in', 'not in') and isinstance(r, ast.Call) and isinstance(r.func, ast.Name) \
+                        and r.func.id in ('set', 'frozenset') and len(r.args) == 1 and not r.keywords and self.val_is(r.args[0]):
+                    return ('X', neg, f"`{src(e)}` decides membership by hashing (`{src(r)}`): a task whose attribute value is "
+                                      f"unhashable (a list, dict or set) makes the query raise TypeError instead of simply not being "
+                                      f"a member", nl)
                 if nr is not None and self.val_is(l):
                     if o in ('in', 'not in'):
                         return ('X', neg, f"`{src(e)}` tests the filter value for membership in the attribute value", nr)
@@ -1912,6 +1946,41 @@ def _call_returns(ctx):
                         return True
             return False
 
+        # ---------- the filters must reach `search` as the caller gave them: `kwargs[k] = frozenset(v)`, `kwargs.update(..)`,
+        #            `del kwargs[k]`, `kwargs = {..}` in __call__ change what `search(t, **kwargs)` tests
+        def hashing(e) -> bool:
+            return isinstance(e, (ast.SetComp, ast.Set)) or (isinstance(e, ast.Call) and isinstance(e.func, ast.Name)
+                                                             and e.func.id in ('set', 'frozenset'))
+        rewrites = []
+        for n in walk_no_nested(f.node):
+            tg = []
+            if isinstance(n, ast.Assign):
+                tg, val = n.targets, n.value
+            elif isinstance(n, (ast.AugAssign, ast.AnnAssign)) and n.value is not None:
+                tg, val = [n.target], n.value
+            elif isinstance(n, ast.Delete):
+                tg, val = n.targets, None
+            for t in tg:
+                if isinstance(t, ast.Subscript) and isinstance(t.value, ast.Name) and t.value.id == KW:
+                    rewrites.append((n, val))
+                elif isinstance(t, ast.Name) and t.id == KW:
+                    rewrites.append((n, val.value if isinstance(val, ast.DictComp) else val))
+            if isinstance(n, ast.Call) and isinstance(n.func, ast.Attribute) and isinstance(n.func.value, ast.Name) \
+                    and n.func.value.id == KW and n.func.attr in ('update', 'pop', 'popitem', 'setdefault', 'clear', '__setitem__',
+                                                                  '__delitem__'):
+                rewrites.append((n, n.args[-1] if n.func.attr in ('__setitem__', 'setdefault') and len(n.args) == 2 else None))
+        for n, val in rewrites:
+            vals = [val.body, val.orelse] if isinstance(val, ast.IfExp) else [val]
+            if any(v is not None and hashing(v) for v in vals):
+                hv = next(v for v in vals if v is not None and hashing(v))
+                o.refute(f, n, n, f"`{src(n)}` replaces a filter value by a set (`{src(hv)}`) before the filters are applied: membership is "
+                                  f"then decided by hashing, so a task whose attribute value is unhashable (a list, dict or set) makes the "
+                                  f"query raise TypeError instead of simply not being a member (`_in_`) / being kept (`_not_in_`); the "
+                                  f"filter values must reach the suffix dispatch as the caller gave them")
+            else:
+                o.undecided(f, n, n, f"`{src(n)}` changes the keyword filters in __call__ before they are applied: whether every "
+                                     f"filter still means what the caller wrote is not followed")
+
         for r in rets:
             if r.value is None:
                 o.refute(f, r, r, "__call__ returns None instead of the list of matching tasks")
@@ -1961,6 +2030,39 @@ def _call_returns(ctx):
             # ---------- result shape
             def is_list(e):
                 return bool(match(SELF, e) or match(f"{SELF}._list", e))
+
+            def stages(e, depth=0):
+                """the iterable as (source, filters on Tn): a pure filtering stage `(u for u in X if C)` (also behind iter() /
+                list()) is X with C[u := Tn]; `A if c else B` over the SAME whole list on both sides is that list with the filter
+                `(filters of A) if c else (filters of B)` (a stage chosen once, e.g. the key predicate only when a key is given).
+                None when e is no such stage - it is then judged as written."""
+                if depth > 4:
+                    return None
+                if isinstance(e, ast.Call) and isinstance(e.func, ast.Name) and e.func.id in ('iter', 'list', 'tuple') \
+                        and len(e.args) == 1 and not e.keywords:
+                    return stages(e.args[0], depth + 1)
+                if isinstance(e, (ast.GeneratorExp, ast.ListComp)) and len(e.generators) == 1:
+                    g = e.generators[0]
+                    if isinstance(g.target, ast.Name) and isinstance(e.elt, ast.Name) and e.elt.id == g.target.id \
+                            and not getattr(g, 'is_async', 0):
+                        inner = stages(g.iter, depth + 1) or (g.iter, [])
+                        ren = {g.target.id: ast.Name(id=Tn, ctx=ast.Load())}
+                        return inner[0], inner[1] + [subst(c, ren) if g.target.id != Tn else c for c in g.ifs]
+                    return None
+                if isinstance(e, ast.IfExp):
+                    a_, b_ = stages(e.body, depth + 1) or (e.body, []), stages(e.orelse, depth + 1) or (e.orelse, [])
+                    if not a_[1] and not b_[1]:
+                        return None
+                    if _whole(a_[0], is_list, True) == 'whole' and _whole(b_[0], is_list, True) == 'whole':
+                        def conj(cs):
+                            return ast.Constant(value=True) if not cs else cs[0] if len(cs) == 1 else \
+                                ast.BoolOp(op=ast.And(), values=list(cs))
+                        return a_[0], [ast.IfExp(test=e.test, body=conj(a_[1]), orelse=conj(b_[1]))]
+                    return None
+                return None
+            st_ = stages(it)
+            if st_ is not None and st_[1]:
+                it, ifs = st_[0], [ast.fix_missing_locations(copy.deepcopy(c)) for c in st_[1]] + list(ifs)
             w = _whole(it, is_list, order_matters=True)
             if w is None:
                 o2.undecided(f, r, it, f"the comprehension iterates `{src(it)}`, not the list itself")
